@@ -31,6 +31,10 @@ Proof.
   cbn [at_sep] in H. apply sepL_true in H. subst c. exists (rev r). reflexivity.
 Qed.
 
+Lemma initw_lastw_spec p :
+  initw p ++ lastw p = p /\ sepfree (lastw p) /\ (initw p = [] \/ exists a, initw p = a ++ [SLASH]).
+Proof. split; [apply initw_lastw|split; [apply lastw_sepfree|apply initw_shape]]. Qed.
+
 (* any decomposition  a ++ w  with w separator-free and a empty or ending with
    a separator is that one *)
 Lemma cut_unique (p a w : str) :
